@@ -167,6 +167,10 @@ class Check:
                 for f in os.listdir(p):
                     if f.endswith(".tla") or f.endswith(".cfg"):
                         shutil.copy(os.path.join(p, f), os.path.join(snap, f))
+            vec = os.path.join(VERIF, "tables", "vectors")           # published vectors and frozen corner points (read by the crypto specs)
+            for f in os.listdir(vec):
+                if f.endswith(".json"):
+                    shutil.copy(os.path.join(vec, f), os.path.join(snap, f))
         for f in os.listdir(snap):
             shutil.copy(os.path.join(snap, f), os.path.join(d, f))
         for src, dst in (extra_files or {}).items():
